@@ -29,8 +29,7 @@ Dec = z3.Function("Dec", I, I, I)
 DecNone = z3.Function("DecNone", I, I, z3.BoolSort())
 Has = z3.Function("Has", I, I, z3.BoolSort())
 FS, FE, FW = z3.Function("FS", I, I, I), z3.Function("FE", I, I, I), z3.Function("FW", I, I, I)
-# geometry of a child map by identity
-AWc, DWc, ALc = z3.Function("AWc", I, I), z3.Function("DWc", I, I), z3.Function("ALc", I, I)
+AWc, DWc, ALc = mm.AWc, mm.DWc, mm.ALc      # geometry of a child map by identity
 Leaf = z3.Function("Leaf", I, z3.BoolSort())
 
 
